@@ -156,6 +156,8 @@ type Sim struct {
 	txUser         int
 	contracts      []common.Address
 	pendingCreates [][2]interface{}
+	forceCreate    string // workload: program of the contract creation that must come next
+	followUps      []common.Address // workload: addresses worth sending money to again later
 	violBase   int
 
 	steps     int
